@@ -107,6 +107,15 @@ type ConnPlan struct {
 // Accepted reports whether a connection was ever handed to this plan.
 func (p *ConnPlan) Accepted() bool { return atomic.LoadInt32(&p.accepted) == 1 }
 
+func (p *ConnPlan) isReleased() bool {
+	select {
+	case <-p.release:
+		return true
+	default:
+		return false
+	}
+}
+
 // PeerInitiated reports whether the replica closed the connection before the
 // master did.
 func (p *ConnPlan) PeerInitiated() bool { return atomic.LoadInt32(&p.peerFirst) == 1 }
@@ -214,6 +223,11 @@ func (m *Master) acceptLoop() {
 		m.mu.Lock()
 		m.conns = append(m.conns, c)
 		var p *ConnPlan
+		// a plan whose attempt is over without ever having connected (the attempt failed or was cancelled
+		// before it dialled) is not handed to a later attempt's connection
+		for m.next < len(m.plans) && m.plans[m.next].isReleased() {
+			m.next++
+		}
 		if m.next < len(m.plans) {
 			p = m.plans[m.next]
 			m.next++
